@@ -39,6 +39,40 @@ func runC11(c *Ctx) {
 	c11TargetType(c, bridge)
 	c11ErrorWrap(c, bridge)
 	c11KindTables(c)
+	c11ConverterShape(c, bridge)
+}
+
+// c11ConverterShape: a nil conversion result means "null for this parameter" to the call bridge (it
+// passes the parameter type's zero value). Only the top-level converter's own interface{} arm may
+// therefore return (nil, no error); the per-kind converters (array, struct, map, number) must
+// return an error when they cannot produce a value.
+func c11ConverterShape(c *Ctx, br *callBridge) {
+	const rule = "C11.converter-result"
+	top := calleeOf(br.Conv)
+	rr := c.P.Reach([]*ssa.Function{top}, c.inModule, nil)
+	n := 0
+	for _, f := range rr.Order {
+		if f == top {
+			continue
+		}
+		sig := f.Signature
+		if sig.Params().Len() != 2 || sig.Results().Len() != 2 || sig.Params().At(1).Type().String() != "reflect.Type" || sig.Results().At(1).Type().String() != "error" {
+			continue
+		}
+		n++
+		bad := ""
+		instrs(f, func(b *ssa.BasicBlock, i int, in ssa.Instruction) {
+			ret, ok := in.(*ssa.Return)
+			if !ok {
+				return
+			}
+			if isNilConst(ret.Results[0]) && isNilConst(ret.Results[1]) {
+				bad = c.P.InstrPos(ret)
+			}
+		})
+		c.R.Check(rule, c.P.FuncKey(f), c.P.Pos(f.Pos()), bad == "", "this converter returns (nil, nil) at "+bad+": the call bridge then invokes the host function with the zero value of the parameter type although the argument could not be converted (e.g. null for a slice parameter)")
+	}
+	c.R.Floor(rule, 3)
 }
 
 type callBridge struct {
